@@ -4,6 +4,11 @@
 //   * a wait() may return v only if, at its last acquisition of the fence mutex, the model fence was open with state v;
 //   * a wait() that saw the fence open must return (not block again);
 //   * once nobody closes any more and the fence has been opened, every pending wait() returns (else DEADLOCK).
+// The exact oracle presumes that open/close/wait each enter the fence's mutex. If an implementation does not (lock-free
+// flags, another member layout), that is noticed - an operation completes without the expected acquisition - and the run
+// falls back to the interval oracle, which needs nothing but the invocation and return of every operation: a wait() that
+// returned v is wrong only if every open(v) had returned before some close() was invoked, and that close() had returned
+// before the wait() was invoked. Lost wake-ups still end as DEADLOCK in both modes.
 #include "runner.hpp"
 #include <kernel/util/thread.hpp>
 #include <kernel/runtime.hpp>
@@ -30,8 +35,13 @@ namespace
     bool finished = false;
   };
 
+  struct OpRec { int fence, kind; uint64_t inv, ret; };   // ret == 0: still in flight
+
   struct Scenario
   {
+    bool exact = true;       // exact linearisation oracle usable (every operation observed inside the fence mutex)
+    uint64_t seq = 0;        // global operation clock (invocations and returns)
+    std::vector<OpRec> log;  // all open/close operations with their intervals
     int nf = 1, nt = 2;
     std::vector<std::unique_ptr<ThreadFence>> fences;
     std::vector<FenceModel> model;
@@ -47,6 +57,41 @@ namespace
   {
     for(int i = 0; i < S->nf; ++i) if((const void*)S->fences[size_t(i)].get() == addr) return i;
     return -1;
+  }
+
+  // is an open (want_open) resp. close operation on this fence in flight that has not been seen inside the mutex (yet)?
+  bool unobserved_in_flight(int f, bool want_open)
+  {
+    for(const TaskState& o : S->ts)
+      if(o.cur >= 0 && o.cur_fence == f && o.n_obs == 0 && (want_open ? (o.cur_kind == OP_OPEN_T || o.cur_kind == OP_OPEN_F) : o.cur_kind == OP_CLOSE)) return true;
+    return false;
+  }
+
+  void leave_exact_mode(const char* why)
+  {
+    if(!S->exact) return;
+    S->exact = false;
+    sim::probe("fence_exact_linearisation_unavailable");
+    sim::note(std::string("falling back to the interval oracle: ") + why);
+  }
+
+  // interval oracle for a wait() on fence f that was invoked at w_inv and has just returned v
+  void interval_check(int f, bool v, uint64_t w_inv, int t)
+  {
+    // the close with the latest invocation among those that had returned before the wait was invoked
+    const OpRec* c = nullptr;
+    for(const OpRec& o : S->log) if(o.fence == f && o.kind == OP_CLOSE && o.ret != 0 && o.ret < w_inv && (c == nullptr || o.inv > c->inv)) c = &o;
+    bool some_open = false, open_after = false;
+    for(const OpRec& o : S->log)
+    {
+      if(o.fence != f || o.kind != (v ? OP_OPEN_T : OP_OPEN_F)) continue;
+      some_open = true;
+      if(c == nullptr || o.ret == 0 || o.ret > c->inv) open_after = true;   // could have taken effect after that close
+    }
+    if(!some_open)
+      sim::fail("FENCE_WAIT_WRONG_STATE", "wait() on fence " + std::to_string(f) + " returned " + std::to_string(int(v)) + " but nobody ever opened the fence with that state (task " + std::to_string(t) + ")");
+    if(!open_after)
+      sim::fail("FENCE_WAIT_RETURNED_CLOSED", "wait() on fence " + std::to_string(f) + " returned although every open() had completed before a close() that itself completed before the wait began (task " + std::to_string(t) + ")");
   }
 
   void observer(int what, const void* addr)
@@ -66,7 +111,7 @@ namespace
     case OP_OPEN_F: m.open = true; m.okay = false; break;
     case OP_CLOSE: m.open = false; m.okay = false; break;
     case OP_WAIT:
-      if(st.n_obs > 0 && st.last_obs.open)
+      if(S->exact && st.n_obs > 0 && st.last_obs.open && !unobserved_in_flight(f, false))
         sim::fail("FENCE_WAIT_NOT_RETURNED", "wait() saw fence " + std::to_string(f) + " open but went back to sleep (task " + std::to_string(t) + ")");
       st.last_obs = m;
       break;
@@ -80,6 +125,9 @@ namespace
     TaskState& st = S->ts[size_t(t)];
     ThreadFence& f = *S->fences[size_t(op.fence)];
     st.cur = idx; st.cur_fence = op.fence; st.cur_kind = op.kind; st.n_obs = 0;
+    const uint64_t inv = ++S->seq;
+    size_t li = size_t(-1);
+    if(op.kind != OP_WAIT) { li = S->log.size(); S->log.push_back({op.fence, op.kind, inv, 0}); }
     switch(op.kind)
     {
     case OP_OPEN_T: f.open(true); break;
@@ -92,18 +140,25 @@ namespace
         st.waiting = false;
         ++S->waits_returned;
         if(st.n_obs > 1) ++S->waits_blocked;
-        if(st.n_obs == 0)
-          sim::fail("INFRA", "fence mutex acquisition not observed (layout assumption &fence == &fence._mtx broken?)");
-        if(!st.last_obs.open)
-          sim::fail("FENCE_WAIT_RETURNED_CLOSED", "wait() on fence " + std::to_string(op.fence) + " returned although the fence was closed at its last check (task " + std::to_string(t) + ")");
-        if(st.last_obs.okay != v)
-          sim::fail("FENCE_WAIT_WRONG_STATE", "wait() returned " + std::to_string(int(v)) + " but the fence was opened with " + std::to_string(int(st.last_obs.okay)));
+        if(st.n_obs == 0) leave_exact_mode("a wait() completed without entering the fence mutex");
+        // the model may lag behind an open()/close() that does not use the mutex: such an operation is only recognised when
+        // it completes, so a disagreement while one is in flight unobserved is not evidence yet
+        if(S->exact && (!st.last_obs.open || st.last_obs.okay != v) && (unobserved_in_flight(op.fence, true) || unobserved_in_flight(op.fence, false)))
+          leave_exact_mode("an open()/close() is in flight that has not entered the fence mutex");
+        if(S->exact)
+        {
+          if(!st.last_obs.open)
+            sim::fail("FENCE_WAIT_RETURNED_CLOSED", "wait() on fence " + std::to_string(op.fence) + " returned although the fence was closed at its last check (task " + std::to_string(t) + ")");
+          if(st.last_obs.okay != v)
+            sim::fail("FENCE_WAIT_WRONG_STATE", "wait() returned " + std::to_string(int(v)) + " but the fence was opened with " + std::to_string(int(st.last_obs.okay)));
+        }
+        else interval_check(op.fence, v, inv, t);
         sim::ev("wait_ret", uint64_t(op.fence), uint64_t(v));
       }
       break;
     }
-    if(op.kind != OP_WAIT && st.n_obs != 1)
-      sim::fail("INFRA", "open/close critical section not observed exactly once");
+    if(li != size_t(-1)) S->log[li].ret = ++S->seq;
+    if(op.kind != OP_WAIT && st.n_obs != 1) leave_exact_mode("an open()/close() completed without exactly one acquisition of the fence mutex");
     st.cur = -1;
   }
 
@@ -138,7 +193,11 @@ namespace
       for(int f = 0; f < S->nf; ++f)
       {
         st.cur = 1000; st.cur_fence = f; st.cur_kind = OP_OPEN_T; st.n_obs = 0;
+        const size_t li = S->log.size();
+        S->log.push_back({f, OP_OPEN_T, ++S->seq, 0});
         S->fences[size_t(f)]->open(true);
+        S->log[li].ret = ++S->seq;
+        if(st.n_obs != 1) leave_exact_mode("an open() completed without exactly one acquisition of the fence mutex");
         st.cur = -1;
       }
       sim::probe("rescue_round");
